@@ -49,6 +49,7 @@ Init == \/ (On(1) /\ PartU)
         \/ (On(5) /\ PartSampled)
         \/ (On(6) /\ \E c \in Configs3 : \E l \in Lefts3(c, MaxLen3), r \in Rights3(c, MaxLen3) : x = CaseX(c, l, r))
         \/ (On(7) /\ \E c \in Configs4 : \E l \in Lefts4(c, MaxLen3 + 1), r \in Rights4(c, MaxLen3 + 1) : x = Case(c, l, r))
+        \/ (On(8) /\ \E c \in Configs5 : \E l \in Lefts5(c, MaxLen3), r \in Rights5(c, MaxLen3) : x = CaseJ(c, l, r))
 Next == UNCHANGED x
 Emit == PrintT(ToJson(x))
 =============================================================================
